@@ -9,7 +9,7 @@ ROOT = os.path.dirname(os.path.dirname(os.path.abspath(__file__)))
 CLAIMED = {
     "C03": dict(
         technique="Kani function contracts (proof_for_contract + stub_verified lemmas) on the real bitfield_unit.rs, complete per storage size; Verus contracts on extracted bitfields_to_allocation_units, pad_to_bitfield_unit, is_packed",
-        text="Deductive proof, per storage size N<=16, that all 12 accessor entry points of __BindgenBitfieldUnit equal the little-endian bit-vector model (value and frame) for every offset, width, storage content and value, with lemmas over the contracts (round trip, disjoint fields, constructor); and that the allocation of bit-fields to units obeys the psABI placement rule, keeps order without overlap and establishes the precondition of the accessors (three contracts by offset mode), that the unit lands at its C offset, and the packed decision. Known findings F1 (shift by 64) and F7 (union unit too short); F5 repaired.",
+        text="Deductive proof, per storage size N<=16, that all 12 accessor entry points of __BindgenBitfieldUnit equal the little-endian bit-vector model (value and frame) for every offset, width, storage content and value, with lemmas over the contracts (round trip, disjoint fields, constructor); and that the allocation of bit-fields to units obeys the psABI placement rule, keeps order without overlap and establishes the precondition of the accessors (three contracts by offset mode), that the unit lands at its C offset, and the packed decision. Known findings F1 (shift by 64), F7 (union unit too short) and F18 (signed getters do not sign-extend); F5, F15, F17 repaired.",
         note="Trusted: Kani/CBMC, Verus/Z3; the u128 reference model; rules L1, R12-R16 (generic instantiation, for-loop and callback desugaring to trusted cursors); psABI placement rule as transcribed; libclang offsets non-decreasing and ABI-placed; host little-endian/64-bit. Unverified: accessor glue in codegen/mod.rs (cast chain, transmute: signed bit-fields are NOT sign-extended by it, observed, outside the contracts), raw_fields_to_fields_and_bitfield_units grouping, units longer than 16 bytes for the accessor proofs.",
         ref="DESIGN.md §3 C03"),
     "C02": dict(
